@@ -1,5 +1,6 @@
 import GrVerif.Proofs.PassBounds
 import GrVerif.Proofs.LoopBound2
+import GrVerif.Proofs.VmSafe2
 import GrVerif.Props.C07
 /-!
 # C02 — shaping any accepted font with any text is safe, terminating and bounded   (partial)
@@ -11,8 +12,13 @@ What the Lean side contributes (model: `Model/Pass.lean`, `Model/Action.lean`, `
 * **termination of code**: action and constraint code is executed by structural recursion over its instruction list
   (`Action.runLoop`, `Vm.runLoop`): every instruction is executed at most once, so a run takes at most `|code|` steps –
   there is no backward jump in the instruction set (the translator of `opcodes.h` would not translate one);
-* **stack discipline**: for every program on which the opcode specification is defined, the machine's result is the
-  specification's (`C07.run_eq_spec`) – in particular no stack cell outside the array is touched;
+* **the machine stack** (`Proofs/VmSafe.lean`, `Proofs/VmSafe2.lean`): for EVERY instruction list – accepted by the loader or
+  not – no opcode body regenerated from `opcodes.h`, no slot opcode of the model and neither epilogue reads or writes outside
+  `_stack[STACK_MAX + 2·STACK_GUARD]` (`every_program_stays_inside_the_stack`, `rule_code_stays_inside_the_stack`,
+  `no_code_leaves_the_stack`): at the start of an instruction `STACK_GUARD ≤ sp < STACK_GUARD + STACK_MAX` (the `ENDOP` test,
+  an unsigned division – `continues_window`), an instruction moves `sp` by −3 … +1 (`scalar_safe`, a window judgement `Ok`
+  proved for each of the 34 translated bodies by one tactic), and the array has two guard cells at either end.  For programs
+  on which the opcode specification is defined the machine's result is moreover the specification's (`C07.run_eq_spec`);
 * **growth**: `insert_respects_budget` (the insert opcode dies once the pass's budget `maxSize` is used up) and
   `runRange_growth` (a range of passes that returns a segment did not let it outgrow 64 × the slots it started with:
   the post-pass `slotCount > maxSize` test).
@@ -56,6 +62,30 @@ theorem code_runs_each_instruction_once (i : Instr) (rest : List Instr) (s : St)
       | .inr e => e
       | .inl s' => if continues (s'.vm.sp - STACK_GUARD) then Action.runLoop rest s' else .normal s') := by
   rfl
+
+/-! ### the machine stack -/
+
+/-- the scalar machine (`Machine::run` on the translated opcode bodies), either driver, any instruction list, any data bytes:
+a run never ends in an access outside `_stack[]` -/
+theorem every_program_stays_inside_the_stack (drv : Driver) (fuel : Nat) (is : List Nat) (data : List Nat) (w : Stop) (s : Vm)
+    (e : Vm.runLoop drv.cont fuel is (initVm data) = .fault w s) : ∀ i, w ≠ .stackFault i := run_stack_safe drv fuel is data w s e
+
+/-- rule code with the slot opcodes, any instruction list: from the start-of-instruction geometry the run ends normally with
+the array intact or with a fault that is not a stack fault -/
+theorem rule_code_stays_inside_the_stack (is : List Instr) (s : St) (h : VOK s.vm) : EndSafe (Action.runLoop is s) := runLoop_safe is s h
+
+/-- **the pipeline, every font and text**: whatever the model reports as an error, it is never an access outside `_stack[]` -/
+theorem no_code_leaves_the_stack (font : Font) (text : List Nat) (fuel : Nat) (hi : font.ipos ≤ font.passes.size)
+    (hL : ∀ k, k < font.passes.size → 1 ≤ (font.passes.getD k default).maxLoop) {w : String} (e : shape font text fuel = .error w) :
+    w ≠ "stack" := by
+  rcases shape_error font text fuel hi hL e with ⟨p, c, s, h⟩ | h
+  · exact findNDoRule_noStack p c s h
+  · rw [h]; decide
+
+/-- non-vacuity: 1100 pushes (more than `STACK_MAX`) stop at the overflow test, 5 pops from an empty stack stop at the
+underflow test – neither run faults -/
+example : (match Vm.runLoop Driver.direct.cont 2000 (List.replicate 1100 55) (initVm []) with | .normal s => s.sp | _ => -100) = 1026 := by decide +kernel
+example : (match Vm.runLoop Driver.direct.cont 2000 (List.replicate 5 6) (initVm []) with | .normal s => s.sp | _ => -100) = 1 := by decide +kernel
 
 /-! ### the rule loop is bounded -/
 
